@@ -115,7 +115,7 @@ theorem C15_current (w : World) :
     ∧ unwrapGreenlet w .current false = .slice none (some ((w.segs.head?.bind List.head?).getD 0)) := ⟨rfl, rfl⟩
 
 /-! non-vacuity: main [1,2], G1 [3,4] (suspended in child.switch()), G2 [5,6] asking -/
-def exW : World := ⟨[[6, 5], [4, 3], [2, 1]], []⟩
+def exW : World := ⟨[[6, 5], [4, 3], [2, 1]], [], []⟩
 
 example : (match unwrapGreenlet exW (.suspended [4, 3]) true with
     | .slice o i => unwrapSlice exW o i none | _ => .frames []) = .frames [3, 4] := by decide
